@@ -64,7 +64,8 @@ package eval
 //@ func Frame.errorp
 //@   trusted
 //@   pure
-//@   ensures result != nil
+//   (a nil cause gives a nil exception: errorp(r, nil) == nil)
+//@   ensures (result == nil) == (e == nil)
 //@ func Frame.errorpf
 //@   trusted
 //@   pure
